@@ -812,14 +812,18 @@ Fixpoint in_F (FS : fsigs) (TL : list ident) (AF : list (fkind * fdef)) (self : 
   match e with
   | EInt z => int_lit_ok z
   | EBool _ => true
-  | EVar x => mem_id x sc
+  | EVar x => mem_id x sc || (Nat.leb 6 lv && (is_fname FS x || self_is self x))
+                 (* level 6: the name of a top-level function / of the running nested function as a VALUE: a copy
+                    of the function object *)
   | ENeg a => negb (is_lit a) && in_F FS TL AF self lv sc a
   | ENot a => negb (is_lit a) && in_F FS TL AF self lv sc a
   | EBin op a b =>
       (f1_binop op || Nat.leb 2 lv) && negb (is_lit a && is_lit b) && shift_ok op b &&
       in_F FS TL AF self lv sc a && in_F FS TL AF self lv sc b
   | ECond c a b => negb (is_lit c) && in_F FS TL AF self lv sc c && in_F FS TL AF self lv sc a && in_F FS TL AF self lv sc b
-  | EAssign (EVar x) r => mem_id x sc && int_shaped r && in_F FS TL AF self lv sc r
+  | EAssign (EVar x) r => Nat.leb lv 5 && mem_id x sc && int_shaped r && in_F FS TL AF self lv sc r
+                 (* not at level 6: Src/Eval.v is untyped, an assignment through an alias of a function cell goes on
+                    there and is stuck on the machine *)
   | EBlock items => items_F_f FS TL AF self lv (in_F FS TL AF self lv) sc 0%nat items
   | EWhile c b => Nat.leb 2 lv && in_F FS TL AF self lv sc c && in_F FS TL AF self lv sc b
   | EDoWhile b c => Nat.leb 2 lv && in_F FS TL AF self lv sc b && in_F FS TL AF self lv sc c
